@@ -145,7 +145,7 @@ def main(ctx):
                 "n=0,1; non-trivial = an accepted transformation changed the "
                 "text; distinct by module text")
     nb = 32 if ctx.quick else 160
-    cnt = 6 if ctx.quick else 30
+    cnt = 4 if ctx.quick else 30
     jobs = [{"seed": ctx.rng("b", i).random(), "count": cnt,
              "ninputs": 5 if ctx.quick else 8} for i in range(nb)]
     for res in ctx.pmap("vf.checks.c06", "batch", jobs, timeout=3400):
